@@ -40,6 +40,13 @@ fn parse_tree(s: &str) -> Option<(Filter, &str)> {
                 let f = if b[0] == b'N' { x.negate() } else { !x };
                 return Some((f, rest));
             }
+            b'R' => {
+                // the filter is rendered once by reference at this point of its history (e.g. logged, or sent in an earlier request)
+                let (x, rest) = parse_tree(&s[2..])?;
+                let rest = rest.strip_prefix(')')?;
+                let _ = catch(|| sent_bytes(&mpd_protocol::command::Command::new("count").argument(&x)));
+                return Some((x, rest));
+            }
             b'&' => {
                 let (x, rest) = parse_tree(&s[2..])?;
                 let rest = rest.strip_prefix(',')?;
@@ -78,6 +85,9 @@ pub fn run(toks: &[&str]) -> String {
             "count" => commands::Count::new(f).command(),
             "list" => commands::List::new(Tag::Album).filter(f).command(),
             "countg" => commands::Count::new(f).group_by(Tag::Artist).command(),
+            // a prepared command whose filter is replaced: the last filter() call counts
+            "list2" => commands::List::new(Tag::Album).filter(!Filter::tag(Tag::Genre, "Audiobook")).filter(f).command(),
+            "countg2" => commands::Count::new(Filter::tag(Tag::Artist, "first")).group_by(Tag::Artist).filter(f).command(),
             _ => return None,
         };
         Some(sent_bytes(&raw))
